@@ -5,23 +5,13 @@ import sqlmod
 import tables
 import predicates as P
 import dtable
+import sqlrules
+from sqlrules import STATE_ENUM
 import sys
 import os
 sys.path.insert(0, os.path.dirname(os.path.abspath(__file__)))
 import c18  # noqa: E402  (shared ordering / pagination clauses)
 
-STATE_ENUM = {"messages": "MessageState", "processed_messages": "ProcessedMessageState", "welcomes": "WelcomeState",
-              "processed_welcomes": "ProcessedWelcomeState", "groups": "GroupState"}
-KEYS = {("mls_group_id", "=", "?"), ("wrapper_event_id", "=", "?"), ("id", "=", "?"), ("group_id", "=", "?")}
-SELECTORS = [  # (trait, method, table)
-    ("MessageStorage", "invalidate_messages_after_epoch", "messages"),
-    ("MessageStorage", "invalidate_processed_messages_after_epoch", "processed_messages"),
-    ("MessageStorage", "find_invalidated_messages", "messages"),
-    ("MessageStorage", "find_invalidated_processed_messages", "processed_messages"),
-    ("MessageStorage", "find_failed_messages_for_retry", "processed_messages"),
-    ("MessageStorage", "mark_processed_message_retryable", "processed_messages"),
-    ("WelcomeStorage", "pending_welcomes", "welcomes"),
-]
 TABLE_CACHES = {
     "groups": {"groups_cache", "groups_by_nostr_id_cache"}, "group_relays": {"group_relays_cache"},
     "group_exporter_secrets": {"group_exporter_secrets_cache"}, "messages": {"messages_cache", "messages_by_group_cache"},
@@ -72,43 +62,6 @@ def clause_enum_tables(prog, rep, sites):
     return as_strs
 
 
-def sql_family(prog, sites, f):
-    return [s for s in sites if s.fn.path == f.path or s.fn.root == f.path]
-
-
-def clause_selectors(prog, rep, sites, as_strs):
-    for trait, m, table in SELECTORS:
-        mem = prog.find(adt="MdkMemoryStorage", name=m, trait=trait)
-        sq = prog.find(adt="MdkSqliteStorage", name=m, trait=trait)
-        rep.floor("selector-siblings", "%s::%s in both backends" % (trait, m), min(len(mem), len(sq)), 1)
-        if not mem or not sq:
-            continue
-        enum = STATE_ENUM[table]
-        mp = set()
-        for tr in P.preds(prog, mem[0]):
-            nrm = P.normalise(tr, as_strs.get(enum, {}))
-            if nrm:
-                mp.add(nrm)
-        mp -= KEYS
-        ss = [s for s in sql_family(prog, sites, sq[0]) if s.stmt.table == table and s.stmt.kind in ("SELECT", "UPDATE", "DELETE")]
-        rep.floor("selector-siblings", "%s SQL statements on %s" % (m, table), len(ss), 1)
-        for s in ss:
-            sp = set((c, o, r) for c, o, r in s.stmt.where if c) - KEYS
-            # `epoch > ?` implies NOT NULL; memory's `if let Some(e)` has no explicit triple
-            rep.check(sp == mp, "selector-siblings", "%s/%s %s" % (m, s.stmt.kind, table),
-                      "SQL predicate %s = memory predicate" % sorted(sp),
-                      "backends select different records: SQLite %s vs memory %s" % (sorted(sp), sorted(mp)), s.loc())
-        # written state constants
-        mw = P.state_writes(prog, mem[0])
-        sw = set()
-        for s in ss:
-            if "state" in s.stmt.set_literals:
-                inv = {v: k for k, v in as_strs.get(enum, {}).items()}
-                sw.add(inv.get(s.stmt.set_literals["state"], "?" + s.stmt.set_literals["state"]))
-        rep.check(mw == sw, "selector-siblings", "%s/state-written" % m, "both backends write state %s" % sorted(mw),
-                  "backends write different states: SQLite %s vs memory %s" % (sorted(sw), sorted(mw)), sq[0].loc())
-
-
 def clause_group_data_types(prog, rep, sch, as_strs):
     chk = sch.check_enum("openmls_group_data", "data_type")
     img = sorted(as_strs.get("GroupDataType", {}).values())
@@ -139,33 +92,6 @@ def clause_group_data_types(prog, rep, sch, as_strs):
     for v in sorted(as_strs.get("GroupDataType", {})):
         rep.check(used.get(v) == {"write", "read", "delete"}, "group-data-types", "triple/%s" % v, "variant has a write, a read and a delete method",
                   "GroupDataType::%s is used by %s only (write/read/delete triple disagrees)" % (v, sorted(used.get(v, []))))
-
-
-def clause_upserts(prog, rep, sch, sites):
-    n = 0
-    for s in sites:
-        st = s.stmt
-        if st.kind != "INSERT" or not st.table or st.table not in sch.tables:
-            continue
-        if s.fn.root and "snapshot" in s.fn.root:
-            continue
-        if st.conflict_cols:
-            n += 1
-            nonkey = set(st.columns) - set(st.conflict_cols)
-            rep.check(nonkey <= set(st.update_set), "upsert-complete", "%s/%s" % (last_seg(s.fn.root), st.table),
-                      "ON CONFLICT DO UPDATE assigns every non-key column (lookup returns the last value saved)",
-                      "upsert on %s does not update column(s) %s: a re-save keeps stale values" % (st.table, sorted(nonkey - set(st.update_set))), s.loc())
-            pk = set(sch.pk(st.table))
-            uniq = [set(u) for u in sch.tables[st.table]["unique"]] + [pk]
-            rep.check(set(st.conflict_cols) in uniq, "upsert-complete", "%s/%s/conflict-target" % (last_seg(s.fn.root), st.table),
-                      "conflict target %s is the table's key" % st.conflict_cols, "conflict target %s is not a key of %s" % (st.conflict_cols, st.table), s.loc())
-    rep.floor("upsert-complete", "ON CONFLICT upserts", n, 2)
-    # message key (C04.3): (mls_group_id, id)
-    for s in sites:
-        if s.stmt.kind == "INSERT" and s.stmt.table == "messages":
-            rep.check(s.stmt.conflict_cols == ["mls_group_id", "id"] and sch.pk("messages") == ["mls_group_id", "id"], "upsert-complete", "messages/key",
-                      "messages are keyed by (mls_group_id, id): id reuse across groups cannot overwrite",
-                      "messages upsert key is %s / pk %s" % (s.stmt.conflict_cols, sch.pk("messages")), s.loc())
 
 
 def clause_row_mappers(prog, rep, sch, sites):
@@ -231,6 +157,25 @@ def clause_table_cache(prog, rep, sch, sites):
     rep.floor("table-cache", "trait methods implemented by both backends", n, 25)
 
 
+def clause_message_key(prog, rep):
+    """memory backend: messages are keyed by (group, id); the auxiliary id-keyed cache must never feed a returned value"""
+    n = 0
+    for trait in ("MessageStorage", "GroupStorage"):
+        for f in prog.find(adt="MdkMemoryStorage", trait=trait):
+            if "Message" not in (f.ret or "") or "ProcessedMessage" in (f.ret or "") and "Message>" not in (f.ret or ""):
+                continue
+            n += 1
+            og = A.origins(prog, f, 0, scope=None, max_frames=1)
+            touched = set(og.fields)
+            for pl_f, pl in og.places:
+                touched |= set(e[1:] for e in pl[1:] if isinstance(e, str) and e.startswith("."))
+            rep.check("messages_cache" not in touched, "message-key", "memory/%s::%s" % (trait, f.name),
+                      "returned messages come from the (group, id)-keyed map",
+                      "%s returns data read from the id-only keyed messages_cache: the same event id in two groups makes the lookup return "
+                      "(or hide) another group's message, unlike SQLite's (mls_group_id, id) key" % f.name, f.loc())
+    rep.floor("message-key", "memory methods returning messages", n, 4)
+
+
 def run(ctx, rep):
     prog = ctx.prog()
     sch = sqlmod.Schema()
@@ -249,10 +194,11 @@ def run(ctx, rep):
             if not ok:
                 rep.violation("sql-parses", "%s/%s" % (s.fn.label(), s.stmt.kind), "statement does not compile against the migrated schema: %s" % err, s.loc())
     as_strs = clause_enum_tables(prog, rep, sites)
-    clause_selectors(prog, rep, sites, as_strs)
+    sqlrules.clause_selectors(prog, rep, sites, as_strs)
     clause_group_data_types(prog, rep, sch, as_strs)
-    clause_upserts(prog, rep, sch, sites)
+    sqlrules.clause_upserts(prog, rep, sch, sites)
     clause_row_mappers(prog, rep, sch, sites)
     clause_table_cache(prog, rep, sch, sites)
+    clause_message_key(prog, rep)
     c18.clause_orders(prog, rep, sch, sites)
     c18.clause_pagination(prog, rep)
